@@ -9,6 +9,7 @@ Line protocol (stateless; mirrors the `math` op of harness/py/c43_mjx.py, which 
   kbi_mjx rs ts sr0 sr1 d0 d1 width mid power pos   `_kbi` of mjx/_src/constraint.py -> k b imp
   kbi_c   rs ts sr0 sr1 d0 d1 width mid power x0    K, B, I of efc_KBIP as engine_core_constraint.c computes them
                                                     (rs = 1: REFSAFE active, 0: disabled; anything else: bad-op)
+  diagadr p0 p1 ...     dof_parentid (integral floats) -> the nv addresses M_rowadr[i] + M_rownnz[i] - 1, then M_colind
 -/
 open MjProof MjProof.Driver MjProof.MjxMath
 
@@ -40,6 +41,12 @@ def run (name : String) (x : List Float) : Option (List Float) :=
   | "kbi_c", [rs, ts, a, b, c, d, e, f, g, x] =>
     if rs == 0.0 || rs == 1.0 then
       let r := cKbi Float.pow (rs == 1.0) ts a b c d e f g x; some [r.1, r.2.1, r.2.2]
+    else none
+  | "diagadr", ps =>
+    -- dof_parentid as integral floats -> M_rowadr[i] + M_rownnz[i] - 1 for every dof, then M_colind
+    if ps.all (fun x => x == x.round && x.abs < 1.0e6) then
+      let rows := sparseRows (ps.map (fun x => x.toInt64.toInt))
+      some (((List.range ps.length).map (fun i => (diagAdr rows i).toFloat)) ++ rows.flatten.map Nat.toFloat)
     else none
   | _, _ => none
 
